@@ -40,25 +40,47 @@ CHECK_DEADLOCK FALSE
 
 
 # ------------------------------------------------------------------ executing a history
+STRIDE = 4096
+
+
+def pattern(v, size, dtype):
+    """flattened (C order) content of the batch with id v: position dependent, so that a batch written in another
+    element order, shifted or torn decodes to -1"""
+    pos = np.arange(size)
+    if np.dtype(dtype) == np.uint8:
+        return ((v * 37 + pos) % 256).astype(dtype)
+    return (v * STRIDE + pos).astype(dtype)
+
+
 def batch_array(sc, v):
     shape = (sc["bs"],) + tuple(sc["row_shape"])
-    return np.full(shape, v, dtype=sc["dtype"])
+    a = pattern(v, int(np.prod(shape)), sc["dtype"]).reshape(shape)
+    layout = sc.get("layout", "C")
+    if layout == "F":            # same values, column-major memory
+        a = np.asfortranarray(a)
+    elif layout == "strided":    # a non-contiguous view
+        big = np.zeros((2 * shape[0],) + shape[1:], dtype=sc["dtype"])
+        big[::2] = a
+        a = big[::2]
+    return a
 
 
 def decode_batches(arr, bs):
-    """array loaded from the file / read from the store -> ids per batch, -1 for a torn (mixed) batch;
+    """array loaded from the file / read from the store -> ids per batch, -1 for a torn / permuted (mixed) batch;
     returns None when the number of rows is not a multiple of the batch size."""
     arr = np.asarray(arr)
     if len(arr) % bs != 0:
         return None
     out = []
     for i in range(len(arr) // bs):
-        b = arr[i * bs:(i + 1) * bs].reshape(-1)
-        v = b[0]
-        if np.all(b == v) and float(np.real(v)) == int(np.real(v)):
-            out.append(int(np.real(v)))
+        b = np.ascontiguousarray(arr[i * bs:(i + 1) * bs]).reshape(-1)
+        first = int(np.real(b[0]))
+        if arr.dtype == np.uint8:
+            cands = [v for v in range(0, 64) if (v * 37) % 256 == first]
         else:
-            out.append(-1)
+            cands = [first // STRIDE] if first >= 0 else []
+        v = next((c for c in cands if np.array_equal(b, pattern(c, b.size, arr.dtype))), -1)
+        out.append(int(v))
     return out
 
 
@@ -121,6 +143,9 @@ class Runner:
         elif op == "reopen":
             o.close()
             self.obj = self.st.NpyArray(self.fn) if level == "array" else self.st.NpyStore(self.fn, bs)
+        elif op == "reopen_n":     # NpyStore only: make the first `a` batches of the file available (documented argument)
+            o.close()
+            self.obj = self.st.NpyStore(self.fn, bs, n_batches=a)
         elif op == "pickle":
             self.obj = pickle.loads(pickle.dumps(o))
         else:
@@ -165,7 +190,7 @@ def record_api(sc, workdir):
                 if not r.contains_ok():
                     n = -2
                 obs = dict(len=n, content=content, looked=bool(look), fileok=True, file=[])
-                if c[0] in ("flush", "reopen", "pickle"):
+                if c[0] in ("flush", "reopen", "pickle", "reopen_n"):
                     ok, ids, _why = load_file(fn, sc["bs"])
                     obs["fileok"], obs["file"] = ok, ids
             except Exception as ex:      # a valid call raised: the store no longer reports the list model
@@ -251,8 +276,8 @@ def _work(args):
 
 
 # ------------------------------------------------------------------ scenarios
-def valid_histories(rnd, n_calls, maxlen, init_len, exhaustive_ops=None):
-    """one random valid history of abstract calls"""
+def valid_histories(rnd, n_calls, maxlen, init_len, exhaustive_ops=None, partial=False):
+    """one random valid history of abstract calls; n is the number of batches the store makes available"""
     calls = []
     n = init_len
     nextv = 10
@@ -260,7 +285,13 @@ def valid_histories(rnd, n_calls, maxlen, init_len, exhaustive_ops=None):
         ops = ["append", "flush", "reopen", "pickle", "read"]
         if n > 0:
             ops += ["overwrite", "truncate", "truncate"]
+        if partial and n > 0:
+            ops += ["reopen_n", "reopen_n"]
         op = rnd.choice(ops)
+        if op == "reopen_n":
+            n = rnd.randint(0, n - 1)
+            calls.append(["reopen_n", n, 0])
+            continue
         if op == "append":
             if n >= maxlen:
                 op = "flush"
@@ -281,6 +312,28 @@ def valid_histories(rnd, n_calls, maxlen, init_len, exhaustive_ops=None):
     return calls
 
 
+def normalise(sc):
+    """A store has no multi-batch truncation: `truncate a` on an NpyStore is the public calls del store[last] repeated
+    (or clear() for a = 0).  Each public call is one call of the trace - the content between two of them is a logical
+    content of its own (a kill there may legitimately leave it behind)."""
+    if sc["level"] != "store":
+        return sc
+    n, calls = len(sc["init"]), []
+    for op, a, b in sc["calls"]:
+        if op == "append":
+            n += 1
+        elif op == "reopen_n":
+            n = a
+        elif op == "truncate":
+            if a > 0:
+                for m in range(n - 1, a, -1):
+                    calls.append(["truncate", m, 0])
+            n = a
+        calls.append([op, a, b])
+    sc["calls"] = calls
+    return sc
+
+
 PINNED_F7 = dict(level="array", dtype="float64", row_shape=[], bs=2, init=[1],
                  calls=[["append", 2, 0], ["overwrite", 1, 3]], pinned="F7 history (fixed)")
 
@@ -293,13 +346,15 @@ def scenarios(ctx, workdir):
         level = rnd.choice(["array", "store"])
         sc = dict(level=level, dtype=rnd.choice(DTYPES), row_shape=rnd.choice([[], [2], [3, 2], [1]]),
                   bs=rnd.choice([1, 2, 3, 5]), init=[1, 2][:rnd.randint(0, 2)])
-        sc["calls"] = valid_histories(rnd, rnd.randint(2, 5 if ctx.quick else 7), 4, len(sc["init"]))
-        hists.append(sc)
+        sc["layout"] = rnd.choice(["C", "C", "F", "strided"])
+        partial = level == "store" and i % 4 == 0
+        sc["calls"] = valid_histories(rnd, rnd.randint(2, 5 if ctx.quick else 7), 4, len(sc["init"]), partial=partial)
+        hists.append(normalise(sc))
     # a few histories with batches larger than Python's 8 KiB buffer (writes go straight to the OS)
     for i in range(3 if ctx.quick else 20):
         sc = dict(level=rnd.choice(["array", "store"]), dtype="float64", row_shape=[40], bs=30, init=[1])
         sc["calls"] = valid_histories(rnd, rnd.randint(2, 5), 4, 1)
-        hists.append(sc)
+        hists.append(normalise(sc))
     # systematic family: an unflushed append followed by EVERY sequence of up to 3 (thorough: 4) further calls over
     # {append, read, overwrite old batch, delete last, flush}: the window in which header and data can disagree
     alphabet = ["append", "read", "overwrite", "truncate", "flush"]
@@ -331,10 +386,43 @@ def scenarios(ctx, workdir):
             if ok:
                 hists.append(dict(level="array" if len(hists) % 2 else "store", dtype="float64", row_shape=[], bs=2, init=[1], calls=calls,
                                   systematic=True))
+    # systematic family for prefix views: a store opened with n_batches = k < number of batches in the file, then every
+    # sequence of up to 2 (thorough: 3) calls over {append, read, overwrite, delete last, flush, reopen, pickle}
+    alphabet = ["append", "read", "overwrite", "truncate", "flush", "reopen", "pickle"]
+    for k in (0, 1, 2):
+        for L in range(1, (2 if ctx.quick else 3) + 1):
+            for seq in itertools.product(alphabet, repeat=L):
+                n, nextv, calls, ok = k, 30, [["append", 9, 0], ["reopen_n", k, 0]], True      # file [1, 2, 9], view k
+                for op in seq:
+                    if op == "append":
+                        calls.append(["append", nextv, 0])
+                        nextv += 1
+                        n += 1
+                    elif op == "overwrite":
+                        if n < 1:
+                            ok = False
+                            break
+                        calls.append(["overwrite", n, nextv])
+                        nextv += 1
+                    elif op == "truncate":
+                        if n < 1:
+                            ok = False
+                            break
+                        n -= 1
+                        calls.append(["truncate", n, 0])
+                    elif op == "reopen":
+                        ok = False        # a full reopen ends the prefix view (covered by the random histories)
+                        break
+                    else:
+                        calls.append([op, 0, 0])
+                if ok:
+                    hists.append(dict(level="store", dtype="float64", row_shape=[], bs=2, init=[1, 2], calls=calls, systematic=True))
     out = []
     for h in hists:
         out.append(dict(h, kind="api", observe="every"))
         out.append(dict(h, kind="api", observe="last"))
+        if any(c[0] == "reopen_n" for c in h["calls"]):
+            continue        # partial views: clause a/b only (after a kill the file holds more than the view: not comparable)
         log = count_ops(h, workdir)
         for (k, name, j) in log:
             for phase in ("before", "after"):
